@@ -279,6 +279,10 @@ func crossLogReads(run *ev.Run, unit int64, r *rand.Rand, dir string) {
 		return rec.Code, rec.Body.Bytes()
 	}
 	a, b := u.Logs[0], u.Logs[len(u.Logs)-1]
+	sameLog := unit%4 >= 2 && want[a.ID] != nil
+	if sameLog {
+		b = a // the second read is of the SAME log, after an update of it was accepted while read A was open
+	}
 	paused, release := make(chan struct{}), make(chan struct{})
 	var once sync.Once
 	hook.SetAfterRead(func(id string) {
@@ -304,6 +308,20 @@ func crossLogReads(run *ev.Run, unit int64, r *rand.Rand, dir string) {
 		run.Inconclusive("watchdog: read A never reached the store")
 		return
 	}
+	oldA := want[a.ID]
+	if sameLog {
+		n, _ := refnote.Parse(oldA)
+		c, _ := refnote.ParseCheckpoint(n.Text)
+		nx := c.Size + 1 + r.Uint64N(5)
+		ret, err := rn.W.Update(context.Background(), a.ID, c.Size, a.Honest(0, nx), a.Branches[0].Consistency(c.Size, nx))
+		if err != nil {
+			close(release)
+			<-ach
+			run.Count("cross_update_refused_while_read_open")
+			return
+		}
+		want[a.ID] = ret
+	}
 	bch := make(chan res, 1)
 	go func() { c, bb := read(b.ID); bch <- res{c, bb} }()
 	var gb res
@@ -325,7 +343,7 @@ func crossLogReads(run *ev.Run, unit int64, r *rand.Rand, dir string) {
 	ga := <-ach
 	run.Add("evaluations", 2)
 	run.Count("overlapping_reads_of_two_logs")
-	run.Distinct("nontrivial", fmt.Sprintf("cross/client=%v/b_stored=%v/%s/queued=%v", viaClient, want[b.ID] != nil, st.Kind, queued))
+	run.Distinct("nontrivial", fmt.Sprintf("cross/client=%v/b_stored=%v/%s/queued=%v/same_log=%v", viaClient, want[b.ID] != nil, st.Kind, queued, sameLog))
 	judge := func(which string, l *gen.Log, g res) {
 		w := want[l.ID]
 		ok := (w == nil && g.code == 404) || (w != nil && g.code == 200 && bytes.Equal(g.body, w))
@@ -336,9 +354,16 @@ func crossLogReads(run *ev.Run, unit int64, r *rand.Rand, dir string) {
 					other = " - these are the bytes stored for another log"
 				}
 			}
-			run.Violate("overlapping_reads_cross_logs;client="+fmt.Sprint(viaClient), fmt.Sprintf("two reads of different logs overlapped; read %s got status %d and bytes that are not what the witness holds for its log%s", which, g.code, other), unit, map[string]any{"store": st.Kind, "got": string(g.body), "want": string(w)})
+			run.Violate("overlapping_reads_cross_logs;client="+fmt.Sprint(viaClient), fmt.Sprintf("two reads overlapped (of different logs, or of one log with an accepted update in between); read %s got status %d and bytes that are not what the witness holds for its log%s", which, g.code, other), unit, map[string]any{"store": st.Kind, "got": string(g.body), "want": string(w)})
 		}
 	}
-	judge("A", a, ga)
+	if sameLog {
+		// A overlaps the update: the old or the new checkpoint are both right for it
+		if !(ga.code == 200 && (bytes.Equal(ga.body, oldA) || bytes.Equal(ga.body, want[a.ID]))) {
+			judge("A", a, ga)
+		}
+	} else {
+		judge("A", a, ga)
+	}
 	judge("B", b, gb)
 }
